@@ -145,6 +145,12 @@ Definition astep (st : astate) (e : tev) : astate :=
     end in
   let b' := Monitors.step (base st) e in
   let st := upd st b' (areqs st) (invals st) (obligs st) (toks st) (cur st) (evpos st) in
+  (* an obligation ends as soon as the client holds no direct subscription any more (unsubscribe event, its own
+     unsubscribe request, disconnect) *)
+  let st := upd st (base st) (areqs st) (invals st)
+                (map (fun o => if affected st (o_c o) (o_r o) then o
+                               else {| o_c := o_c o; o_r := o_r o; o_pos := o_pos o; o_req := o_req o; o_verdict := o_verdict o; o_unsub := true |})
+                     (obligs st)) (toks st) (cur st) (evpos st) in
   match e with
   | TSched w => upd st (base st) (areqs st) (invals st) (obligs st) (toks st) w (evpos st)
   | TConn c => upd st (base st) (areqs st) (invals st) (obligs st) (Client.set_k c [0] (toks st)) (cur st) (evpos st)
@@ -210,8 +216,8 @@ Definition astep (st : astate) (e : tev) : astate :=
       let st := fold_left (fun s ob =>
                   if Client.mem (o_c ob) (gone (base s)) then s else
                   match o_req ob, o_verdict ob with
-                  | None, _ => if affected s (o_c ob) (o_r ob) then aviol_add s ANoReaccess (o_c ob) (o_r ob) else s
-                  | Some _, Some false => if o_unsub ob || negb (affected s (o_c ob) (o_r ob)) then s
+                  | None, _ => if o_unsub ob then s else aviol_add s ANoReaccess (o_c ob) (o_r ob)
+                  | Some _, Some false => if o_unsub ob then s
                                           else aviol_add s ANoRevocation (o_c ob) (o_r ob)
                   | _, _ => s
                   end) (obligs st) st in
